@@ -82,6 +82,18 @@ def fmt(dtype):
     return tm.FMT[dtype]
 
 
+ENTRY = ["quantizer"]  # which public entry point the oracles drive: SymmetricQuantizer.apply or quantize_activation (per-tensor)
+
+
+def _quantize(x, qt, axis, scale):
+    from optimum.quanto import quantize_activation
+    from optimum.quanto.tensor.quantizers import SymmetricQuantizer
+
+    if ENTRY[0] == "activation":
+        return quantize_activation(x, qt, scale)
+    return SymmetricQuantizer.apply(x, qt, axis, scale)
+
+
 def oracle(x, scale, qtype_name, axis, check_requant=True):
     """exact-rational evaluation of C01 on plain quanto for concrete inputs; returns list of problems"""
     from optimum.quanto.tensor.quantizers import SymmetricQuantizer
@@ -91,7 +103,7 @@ def oracle(x, scale, qtype_name, axis, check_requant=True):
     f = fmt(dtype)
     u = Fraction(1, 2 ** f["p"])
     eta = Fraction(2) ** (f["emin"] - f["p"])
-    q = SymmetricQuantizer.apply(x, qt, axis, scale)
+    q = _quantize(x, qt, axis, scale)
     d = q.dequantize()
     probs = []
     if tuple(q.shape) != tuple(x.shape) or q.dtype != scale.dtype or tuple(d.shape) != tuple(x.shape) or tuple(q._data.shape) != tuple(x.shape) or q._data.dtype != qt.dtype:
@@ -119,7 +131,7 @@ def oracle(x, scale, qtype_name, axis, check_requant=True):
     if check_requant and dtype in (torch.float16, torch.float32) and not probs:
         ok_scale = all(Fraction(sv) * gmax <= Fraction(f["fmax"]) and Fraction(sv) * gmin >= 2 * Fraction(f["fmin_sub"]) for sv in ss if sv > 0)
         if ok_scale and torch.isfinite(d).all():
-            q2 = SymmetricQuantizer.apply(d, qt, axis, scale)
+            q2 = _quantize(d, qt, axis, scale)
             a, b = q._data.to(torch.float32), q2._data.to(torch.float32)
             if not torch.equal(a, b):
                 idx = (a != b).nonzero()[0].tolist()
@@ -133,7 +145,7 @@ def saturation_oracle(x, scale, qtype_name, axis):
     from optimum.quanto.tensor.quantizers import SymmetricQuantizer
 
     qt = _qt(qtype_name)
-    q = SymmetricQuantizer.apply(x, qt, axis, scale)
+    q = _quantize(x, qt, axis, scale)
     quo = (x / scale).double().reshape(-1).tolist()
     codes = q._data.to(torch.float64).reshape(-1).tolist()
     deq = q.dequantize().double().reshape(-1).tolist()
@@ -466,9 +478,17 @@ def replay(rec):
     x = api.dec_tensor(inp["x"])
     s = api.dec_tensor(inp["scale"])
     try:
-        probs = oracle(x, s, inp["qtype"], inp["axis"])
-        if rec["clause"] in ("saturate-high", "saturate-low", "code-not-nan", "finite-when-grid-representable"):
-            probs += saturation_oracle(x, s, inp["qtype"], inp["axis"])
+        probs = []
+        # both public entry points (the per-tensor one also through quantize_activation)
+        for entry in ("quantizer", "activation") if (inp["axis"] is None and s.numel() == 1) else ("quantizer",):
+            ENTRY[0] = entry
+            try:
+                pe = oracle(x, s, inp["qtype"], inp["axis"])
+                if rec["clause"] in ("saturate-high", "saturate-low", "code-not-nan", "finite-when-grid-representable"):
+                    pe += saturation_oracle(x, s, inp["qtype"], inp["axis"])
+            finally:
+                ENTRY[0] = "quantizer"
+            probs += [f"[{entry}] {p_}" for p_ in pe]
     except Exception as e:  # noqa
         import traceback
 
